@@ -227,7 +227,7 @@ pub struct DInline<T: Clone, const N: usize, U = u8> {
 pub fn run_c18(ctx: &Ctx) -> Report {
     let mut rep = Report::new("C18");
     rep.corr_module = "Macros".into();
-    rep.expect_classes(&["disc:builder", "disc:compiled", "conv:u64", "conv:slice:ok", "conv:slice:err", "header:generic", "header:plain", "literal:raw", "literal:block-boundary", "literal:trailing-comma"]);
+    rep.expect_classes(&["disc:builder", "disc:compiled", "conv:u64", "conv:slice:ok", "conv:slice:err", "header:generic", "header:plain", "literal:raw", "literal:block-boundary", "literal:trailing-comma", "attrs:tool-path-lookalike"]);
     let mut rng = Rng::new(ctx.seed.wrapping_mul(197).wrapping_add(18));
     // ---- compiled derives
     let compiled: Vec<(&str, &str, ArrayDiscriminator, &[u8])> = vec![
@@ -267,7 +267,16 @@ pub fn run_c18(ctx: &Ctx) -> Report {
         }
         let (gens, wh) = gen_generics(&mut rng);
         let is_enum = rng.chance(1, 3);
-        let extra = if rng.chance(1, 3) { "#[derive(Clone)]\n#[repr(C)]\n" } else { "" };
+        // other attributes before the real one: derives, repr, docs, cfg_attr, and tool attributes whose
+        // path merely ENDS in the helper's name or that carry string arguments of their own
+        let extra = match rng.below(9) {
+            0 | 1 => "#[derive(Clone)]\n#[repr(C)]\n",
+            2 => { rep.count("attrs:tool-path-lookalike"); "#[rustfmt::discriminator_hash_input(\"other\")]\n" }
+            3 => { rep.count("attrs:tool-path-lookalike"); "#[clippy::discriminator_hash_input(\"other\")]\n#[allow(dead_code)]\n" }
+            4 => "/// a doc comment with \"quotes\"\n#[doc = \"discriminator_hash_input\"]\n#[cfg_attr(all(), allow(dead_code))]\n",
+            5 => "#[deprecated(note = \"discriminator_hash_input(\\\"x\\\")\")]\n#[must_use = \"y\"]\n",
+            _ => "",
+        };
         let body = if is_enum { "{ A, B }".to_string() } else if rng.chance(1, 2) { "{ x: u8 }".to_string() } else { ";".to_string() };
         // the attribute also takes a trailing comma
         let lit = if rng.chance(1, 5) { rep.count("literal:trailing-comma"); format!("{},", lit) } else { lit };
